@@ -336,12 +336,28 @@ def c02_key(r, k, v):
     if r.get('twin_status') == 'ok':
         # the failure disappears when every binder is renamed apart: an instance of the missing capture avoidance
         return "fun2core/capture/shadowing-dependent"
+    if calls_main(r.get('src') or ''):
+        # `main` is compiled without a continuation parameter, calls of `main` pass one (fun2core::def::compile_main): the Core
+        # program has a call with one argument too many (CoreM stuck); in the compiled code the callee's `exit` ends the whole
+        # program, which differs from the source whenever the call is not in tail position (trace)
+        if (k.endswith('->compiled') and v.get('kind') == 'stuck' and 'call of main with' in str(v.get('note'))) or (k.endswith('->x86') and v.get('kind') == 'trace'):
+            return "fun2core/main-called/no-continuation-parameter"
     return None
+
+
+def calls_main(src):
+    import re
+    return re.search(r'(?<![A-Za-z0-9_])(?<!def )main\s*\(', src) is not None
+
+
+def recursive_main_items():
+    import funprogs
+    return [{'name': p['name'], 'src': p['src'], 'twin': None} for p in funprogs.recursive_main()]
 
 
 def c02():
     tier = fw.tier()
-    items = [dict(it, pairs=[('fun', 'compiled')]) for it in corpus() + gen_items(tier, 'sequenced')]
+    items = [dict(it, pairs=[('fun', 'compiled')]) for it in corpus() + gen_items(tier, 'sequenced') + recursive_main_items()]
     return run_tv('C02', items, "repository corpus + exhaustively instantiated families of the effect-sequenced fragment: every pair of "
                   "binder kinds reusing a name (let / clause / label / cocase / parameter) x 9 continuation contexts, generated-looking "
                   "user names, all cut shapes, 1..16 live variables; FunM x CoreM on compile_prog output", key_fn=c02_key)
@@ -500,7 +516,7 @@ def native_item(item):
 
 def c01():
     tier = fw.tier()
-    items = [dict(it, pairs=[('fun', 'x86')]) for it in corpus() + gen_items(tier, 'sequenced') + effectful_arguments(tier)]
+    items = [dict(it, pairs=[('fun', 'x86')]) for it in corpus() + gen_items(tier, 'sequenced') + effectful_arguments(tier) + recursive_main_items()]
     return run_tv('C01', items, "repository corpus + the effect-sequenced families + effects in argument positions (families and extended random grammar, distinct binders); FunM x symbolic execution of the printed x86-64 routine "
                   "(prologue, body, epilogue; concrete-layout mode) with the driver / print contracts of C20; exit status compared modulo 256",
                   key_fn=c02_key, pre=validate_models)
